@@ -87,7 +87,8 @@ def colang_source(cfg):
             out.append('  if $verdict.kind == "rewrite"')
             out.append(f"    {var[cat]} = $verdict.text")
             out.append("")
-    if cfg.get("dialog") in ("predef", "llm"):
+    if cfg.get("dialog") in ("predef", "llm", "refuse"):
+        # "refuse": a DIALOG flow answers with the (predefined) refusal: the turn ends with a refusal although no rail blocked
         out += [
             "define user express greeting",
             '  "hi"',
@@ -95,7 +96,7 @@ def colang_source(cfg):
             "",
             "define flow greeting",
             "  user express greeting",
-            "  bot express greeting",
+            "  bot refuse to respond" if cfg["dialog"] == "refuse" else "  bot express greeting",
             "",
         ]
         if cfg["dialog"] == "predef":
@@ -204,63 +205,94 @@ def _install_spy():
     _SPY["installed"] = True
 
 
-def _one_call(app, llm, script, cfg, messages, options, llm_text, state=None, use_state=False):
-    """One `generate_async` call; returns (observation, GenerationResponse | message | None)."""
+def _begin_call(llm, script, cfg, llm_text):
     script.cfg = cfg
     script.calls = []
     llm.responses = llm_script(cfg, llm_text)
     llm.i = 0
     _SPY["plog"] = None
     _SPY["stats_llm"] = None
+
+
+def _observe(res, with_log):
+    """GenerationResponse | message dict -> observation (both shapes are accepted whatever was asked for)."""
+    obs = {}
+    if isinstance(res, dict):
+        msg = res
+    else:
+        msg = res.response[0] if isinstance(res.response, list) else {"role": "assistant", "content": res.response}
+    obs["role"] = msg.get("role")
+    if msg.get("role") == "exception":
+        obs["response"] = None
+        obs["exception"] = msg["content"].get("type")
+    else:
+        obs["response"] = msg.get("content")
+    if with_log:
+        log = None if isinstance(res, dict) else res.log
+        obs["rails"] = [
+            {"type": r.type, "name": r.name, "stop": bool(r.stop), "finished": r.finished_at is not None, "decisions": list(r.decisions),
+             "actions": [{"name": a.action_name, "finished": a.finished_at is not None, "llm": [c.task for c in a.llm_calls]} for a in r.executed_actions]}
+            for r in (log.activated_rails if log else [])
+        ]
+        obs["alog"] = abstract_plog(_SPY["plog"]) if _SPY["plog"] is not None else None
+        obs["log_llm_calls"] = _SPY["stats_llm"]
+    return obs
+
+
+async def _acall(app, llm, script, cfg, messages, options, llm_text, state=None, use_state=False):
+    """One `generate_async` call inside the CURRENT task / async context; returns (observation, result | None)."""
+    _begin_call(llm, script, cfg, llm_text)
     obs = {}
     res = None
     try:
         from nemoguardrails.context import explain_info_var
 
         explain_info_var.set(None)
-        loop = asyncio.new_event_loop()
-        try:
-            with contextlib.redirect_stdout(io.StringIO()), contextlib.redirect_stderr(io.StringIO()):
-                if use_state:
-                    res = loop.run_until_complete(app.generate_async(messages=messages, options=options, state=state))
-                else:
-                    res = loop.run_until_complete(app.generate_async(messages=messages, options=options))
-        finally:
-            loop.close()
-        if options is None and not use_state:
-            msg = res
-        else:
-            msg = res.response[0] if isinstance(res.response, list) else {"role": "assistant", "content": res.response}
-        obs["role"] = msg.get("role")
-        if msg.get("role") == "exception":
-            obs["response"] = None
-            obs["exception"] = msg["content"].get("type")
-        else:
-            obs["response"] = msg.get("content")
-        if options is not None:
-            obs["rails"] = [
-                {"type": r.type, "name": r.name, "stop": bool(r.stop), "finished": r.finished_at is not None, "decisions": list(r.decisions),
-                 "actions": [{"name": a.action_name, "finished": a.finished_at is not None, "llm": [c.task for c in a.llm_calls]} for a in r.executed_actions]}
-                for r in (res.log.activated_rails if res.log else [])
-            ]
-            obs["alog"] = abstract_plog(_SPY["plog"]) if _SPY["plog"] is not None else None
-            obs["log_llm_calls"] = _SPY["stats_llm"]
+        with contextlib.redirect_stdout(io.StringIO()), contextlib.redirect_stderr(io.StringIO()):
+            if use_state:
+                res = await app.generate_async(messages=messages, options=options, state=state)
+            else:
+                res = await app.generate_async(messages=messages, options=options)
+        obs = _observe(res, options is not None)
     except Exception as e:  # noqa
-        obs["exc"] = f"{type(e).__name__}: {e}"[:300]
+        obs = {"exc": f"{type(e).__name__}: {e}"[:300]}
         res = None
     obs["calls"] = [list(c) for c in script.calls]
     obs["llm_calls"] = llm.i
     return obs, res
 
 
-def _options(rails_opt):
+def _one_call(app, llm, script, cfg, messages, options, llm_text, state=None, use_state=False):
+    """One `generate_async` call in a task (and event loop) of its own; returns (observation, result | None)."""
+    loop = asyncio.new_event_loop()
+    try:
+        return loop.run_until_complete(_acall(app, llm, script, cfg, messages, options, llm_text, state=state, use_state=use_state))
+    finally:
+        loop.close()
+
+
+RAILS_FORMS = ("list", "dict", "partial", "object")
+
+
+def _options(rails_opt, form="list"):
+    """The same selection in the forms the API accepts: list of category names (documented), dict of booleans, dict naming
+    only the deselected categories (the others default to enabled), or a `GenerationOptions` object (what the server passes)."""
     options = {"log": {"activated_rails": True}}
     if rails_opt is not None:
-        options["rails"] = list(rails_opt)
+        if form == "list":
+            options["rails"] = list(rails_opt)
+        elif form == "partial":
+            options["rails"] = {c: False for c in CATS if c not in rails_opt}
+        else:
+            options["rails"] = {c: (c in rails_opt) for c in CATS}
+    if form == "object":
+        from nemoguardrails.rails.llm.options import GenerationOptions
+
+        return GenerationOptions(**options)
     return options
 
 
-def run_turn_full(cfg, rails_opt, user_text, bot_text, llm_text, no_options=False):
+def run_turn_full(cfg, rails_opt, user_text, bot_text, llm_text, no_options=False, form="list"):
     """Drive one `generate` call on a fresh conversation.  rails_opt: None (no `rails` option) or list of category
     names; no_options: call `generate` without any options (then no log comes back)."""
     app, llm, script = get_app(cfg)
@@ -269,39 +301,85 @@ def run_turn_full(cfg, rails_opt, user_text, bot_text, llm_text, no_options=Fals
     messages = [{"role": "user", "content": user_text}]
     if bot_text is not None:
         messages.append({"role": "assistant", "content": bot_text})
-    obs, _ = _one_call(app, llm, script, cfg, messages, None if no_options else _options(rails_opt), llm_text)
+    obs, _ = _one_call(app, llm, script, cfg, messages, None if no_options else _options(rails_opt, form), llm_text)
     return obs
 
 
-def run_session(cfg, calls, via):
-    """Several `generate` calls on ONE conversation.  calls: [{"opts", "user", "bot", "llm_text"}, …];
+def run_session(cfg, calls, via, ctx="task-per-call", share=False):
+    """Several `generate` calls one after the other on ONE `LLMRails` (one process).
+    calls: [{"opts", "user", "bot", "llm_text", "no_options"?, "form"?}, …]
     via = "state": the `state` returned by a call is passed to the next one (messages = the new ones only);
     via = "history": the whole message history is passed again (the events come from `events_history_cache` when the
-    prefix hits, else they are rebuilt from the messages).  Returns one observation per call (the sequence stops after a
-    call that raised or answered with an exception message in the history mode)."""
+    prefix hits, else they are rebuilt from the messages);
+    via = "separate": every call is a conversation of its own (only its own messages, no state);
+    ctx = "one-task": all calls are awaited one after the other in ONE task (one async context, like a server handler or a
+    notebook cell that awaits `generate_async` repeatedly); "task-per-call": a new event loop per call (like `generate`);
+    share: calls with the same selection and form are given the very SAME options object (dict / GenerationOptions).
+    Returns one observation per call (the sequence stops after a call that raised or, in the history mode, answered with
+    an exception message)."""
     app, llm, script = get_app(cfg)
     _install_spy()
     app.events_history_cache.clear()
-    out = []
-    state = {}
-    hist = []
-    for c in calls:
-        new = [{"role": "user", "content": c["user"]}]
-        if c.get("bot") is not None:
-            new.append({"role": "assistant", "content": c["bot"]})
-        if via == "state":
-            obs, res = _one_call(app, llm, script, cfg, new, _options(c["opts"]), c["llm_text"], state=state, use_state=True)
-            out.append(obs)
-            if res is None or getattr(res, "state", None) is None:
-                break
-            state = res.state
-        else:
-            obs, res = _one_call(app, llm, script, cfg, [dict(m) for m in hist] + new, _options(c["opts"]), c["llm_text"])
-            out.append(obs)
-            if res is None or obs.get("role") != "assistant":
-                break
-            hist = hist + [new[0], {"role": "assistant", "content": obs["response"]}]
-    return out
+    shared = {}
+
+    def options_of(c):
+        if c.get("no_options"):
+            return None
+        form = c.get("form", "list")
+        if not share:
+            return _options(c["opts"], form)
+        k = (form, None if c["opts"] is None else tuple(c["opts"]))
+        if k not in shared:
+            shared[k] = _options(c["opts"], form)
+        return shared[k]
+
+    async def drive(call):
+        out = []
+        state = {}
+        hist = []
+        for c in calls:
+            new = [{"role": "user", "content": c["user"]}]
+            if c.get("bot") is not None:
+                new.append({"role": "assistant", "content": c["bot"]})
+            if via == "state":
+                obs, res = await call(new, options_of(c), c["llm_text"], state, True)
+                out.append(obs)
+                if res is None or getattr(res, "state", None) is None:
+                    break
+                state = res.state
+            elif via == "separate":
+                obs, res = await call(new, options_of(c), c["llm_text"], None, False)
+                out.append(obs)
+                if res is None:
+                    break
+            else:
+                obs, res = await call([dict(m) for m in hist] + new, options_of(c), c["llm_text"], None, False)
+                out.append(obs)
+                if res is None or obs.get("role") != "assistant":
+                    break
+                hist = hist + [new[0], {"role": "assistant", "content": obs["response"]}]
+        return out
+
+    if ctx == "one-task":
+        async def call(messages, options, llm_text, state, use_state):
+            return await _acall(app, llm, script, cfg, messages, options, llm_text, state=state, use_state=use_state)
+    else:
+        async def call(messages, options, llm_text, state, use_state):
+            return _one_call(app, llm, script, cfg, messages, options, llm_text, state=state, use_state=use_state)
+
+    if ctx == "one-task":
+        loop = asyncio.new_event_loop()
+        try:
+            return loop.run_until_complete(drive(call))
+        finally:
+            loop.close()
+    # task-per-call: the driver coroutine never suspends itself (every call runs its own loop to completion)
+    co = drive(call)
+    try:
+        co.send(None)
+    except StopIteration as e:
+        return e.value
+    raise RuntimeError("run_session: driver suspended")
 
 
 def run_turn(cfg, rails_opt, user_text, bot_text, llm_text, want_plog=False):
